@@ -511,7 +511,7 @@ func TestVerifC07Unit(t *testing.T) {
 	}
 	vC07UnitCorpus(t, hostAll, emit)
 	vC07TwoSiteCases(rand.New(rand.NewSource(int64(vC07EnvInt("VERIF_SEED", 1))*7907+5)), 7+n/15, hostAll, emit)
-	vC07DelegCases(rand.New(rand.NewSource(int64(vC07EnvInt("VERIF_SEED", 1))*15485863+9)), 20+n/8, hostAll, emit)
+	vC07DelegCases(rand.New(rand.NewSource(int64(vC07EnvInt("VERIF_SEED", 1))*15485863+9)), 12+n/40, hostAll, emit)
 	vC07UsableCases(r, n/5, hostAll, "", emit)
 	vC07GlueCases(t, r, n/5, hostAll, "", emit)
 	local := hostAll
